@@ -414,6 +414,7 @@ func runC20(c *Case, out func(string)) {
 	s := &c20State{root: root, db: filepath.Join(root, "db"), out: out, oracleOK: true, kf: map[string]bool{},
 		written: map[string]string{}, usedWALDirs: map[string]bool{}}
 	s.cfg = config.NewDefaultConfig(s.db)
+	out("BEGIN")
 	defer func() {
 		if s.eng != nil {
 			s.eng.Close()
